@@ -86,6 +86,9 @@ type Case struct {
 	NoID   bool        `json:"no_id,omitempty"`
 	Seed   uint64      `json:"seed,omitempty"` // only for delays jitter; not semantic
 	Lists  *ListSpec   `json:"lists,omitempty"`
+	// Twice: when the driven run is over, the same compiled runnable is driven a second time from the same
+	// input under another checkpoint id (what a server does with one compiled graph and many sessions).
+	Twice bool `json:"twice,omitempty"`
 }
 
 // sharesLists: graph gi is handed the shared lists of c.Lists.
